@@ -9,7 +9,7 @@ namespace Uquic.Proofs.Fields
 open Uquic.Model.H3.Fields Uquic.Gen.H3Fields
 open Uquic.Spec.H3Fields (isPseudoName lowerTchar fieldValueByte isDigitByte connectionSpecific allowedPseudo
   fieldSize sectionSize NameTokens ValueBytes NoConnectionSpecific TeTrailers PseudoKnown PseudoFirst PseudoUnique
-  ClSingle ClNumeric SizeOk WellFormedG WellFormed)
+  ClSingle ClNumeric SizeOk WellFormed)
 
 abbrev Field := List Nat × List Nat
 
